@@ -24,7 +24,7 @@ def W1(ctx):
 
     def m(prog_, i, b, t, c):
         k = prog_.callee_key(c)
-        if k.startswith("std::collections::VecDeque::<") and k.endswith("::push_back"):
+        if is_std_collection_call(k, "push_back"):
             body = prog_.body_of(i)
             if mentions_field(arg_expr(body, t, 0), CSTATE, "waiters") and mentions_call(arg_expr(body, t, 1), "rt::thread::Set::active_id"):
                 return ["enqueue"]
